@@ -155,6 +155,8 @@ pub struct Reader {
     pub imports: HashMap<u32, String>,
     /// OpConstant lines are formatted by type only in the module-scope part
     pub in_function: bool,
+    /// whether the extended-instruction number of the line read last was written as a name
+    pub last_ext_symbolic: std::cell::Cell<Option<bool>>,
 }
 
 struct Toks {
@@ -174,7 +176,7 @@ impl Toks {
 
 impl Reader {
     pub fn new() -> Reader {
-        Reader { types: TypeModel::new(), imports: HashMap::new(), in_function: false }
+        Reader { types: TypeModel::new(), imports: HashMap::new(), in_function: false, last_ext_symbolic: Default::default() }
     }
 
     fn literal_for_type(&self, tok: &str, type_id: u32, typed_format: bool) -> Result<AVal, String> {
@@ -202,6 +204,7 @@ impl Reader {
             }
             K::LiteralExtInstInteger => {
                 let t = ts.next()?;
+                self.last_ext_symbolic.set(Some(t.parse::<u32>().is_err()));
                 let v = match t.parse::<u32>() {
                     Ok(v) => v,
                     Err(_) => {
@@ -289,6 +292,7 @@ impl Reader {
     pub fn line(&mut self, line: &str) -> Result<AInst, String> {
         let d = db();
         let mut ts = Toks { t: tokenize(line)?, i: 0 };
+        self.last_ext_symbolic.set(None);
         let first = ts.next()?;
         let (rid, optok) = if first.starts_with('%') {
             let eq = ts.next()?;
